@@ -240,10 +240,20 @@ func TestC25(t *testing.T) {
 		unrelated := flags["borrow:unrelated-type"] || flags["verify:borrow:unrelated-type"]
 		nt := retargetThenDelete && upcast && unrelated && flags["target-unloaded"]
 		rec.Case(nt, key.String())
-		if nt && rec.WantSample("nontrivial") {
-			rec.Sample("nontrivial", hist.Steps[len(hist.Steps)-1].Tx)
-		} else if rec.WantSample("any") {
-			rec.Sample("any", hist.Steps[0].Tx)
+		compact := func() []any {
+			var out []any
+			for _, st := range hist.Steps {
+				out = append(out, map[string]any{"actions": st.Tx.Actions, "abort": st.Tx.Abort, "model_fails": st.Expect.Fails, "model_error": st.Expect.ErrContains})
+			}
+			return out
+		}
+		switch {
+		case nt && rec.WantSample("nontrivial"):
+			rec.Sample("nontrivial", compact())
+		case !nt && rec.WantSample("trivial"):
+			rec.Sample("trivial", compact())
+		case rec.WantSample("a-transaction-source"):
+			rec.Sample("a-transaction-source", hist.Steps[len(hist.Steps)/2].Source)
 		}
 	})
 }
